@@ -114,6 +114,7 @@ impl Prop for C10 {
             4 => (arb_d(), arb_d()).prop_map(|(x, y)| Case { x, y: Rhs::Dec(y) }),
             3 => (arb_d(), arb_int(), any::<bool>()).prop_map(|(x, i, l)| Case { x, y: if l { Rhs::IntL(i) } else { Rhs::IntR(i) } }),
             2 => arb_related_pair().prop_map(|(x, y)| Case { x, y: Rhs::Dec(y) }),
+            2 => arb_unit_pair().prop_map(|(x, y)| Case { x, y: Rhs::Dec(y) }),
             2 => (arb_word_pair(), arb_word_int(), 0u8..3).prop_map(|((x, y), i, k)| {
                 let y = match k { 0 => Rhs::Dec(y), 1 => Rhs::IntR(i), _ => Rhs::IntL(i) };
                 Case { x, y }
